@@ -17,6 +17,19 @@ from pydiverse.transform._internal.tree.ast import AstNode
 from pydiverse.transform._internal.tree.col_expr import CaseExpr, Cast, Col, ColExpr, ColFn, LiteralCol
 
 
+def verb_order(nd: AstNode) -> list:
+    """The order established by preceding `arrange` verbs (most recent first), as seen by
+    window functions without `arrange=`. `summarize`, joins, unions and subqueries reset it."""
+    order = []
+    while isinstance(nd, verbs.Verb) and not isinstance(
+        nd, verbs.Summarize | verbs.SubqueryMarker | verbs.Join | verbs.Union
+    ):
+        if isinstance(nd, verbs.Arrange):
+            order = order + nd.order_by
+        nd = nd.child
+    return order
+
+
 @dataclasses.dataclass(slots=True)
 class Cache:
     name_to_uuid: dict[str, UUID]  # the selected columns, in order
@@ -286,6 +299,26 @@ class Cache:
             if (isinstance(fn, ColFn) and fn.op.ftype in (Ftype.AGGREGATE, Ftype.WINDOW))
         ):
             return "nested window / aggregation functions in `mutate`"
+
+        if (
+            isinstance(node, verbs.Mutate)
+            and any(
+                isinstance(fn, ColFn)
+                and fn.op.ftype == Ftype.WINDOW
+                and not fn.context_kwargs.get("arrange")
+                and any(kwarg.name == "arrange" for kwarg in fn.op.context_kwargs)
+                for fn in node.iter_col_nodes()
+            )
+            and any(
+                col.ftype(agg_is_window=True) in (Ftype.WINDOW, Ftype.AGGREGATE)
+                for ord in verb_order(node.child)
+                for col in ord.order_by.iter_subtree_postorder()
+                if isinstance(col, Col)
+            )
+        ):
+            # a window function without `arrange=` follows the order of the preceding
+            # `arrange` verbs, so their sort keys end up inside its OVER clause
+            return "window function in `mutate` ordered by a window / aggregation function of a preceding `arrange`"
 
         if isinstance(node, verbs.Filter) and any(
             col.ftype(agg_is_window=True) == Ftype.WINDOW for col in node.iter_col_nodes() if isinstance(col, Col)
